@@ -87,7 +87,11 @@ EXTERNALS = ["os", "os.path", "xml.etree.ElementTree", "logging.handlers", "proj
 def cases(draw):
     tree = draw(PS.project_trees(max_depth=5, max_dirs=7, with_noise=False))
     ext = draw(st.integers(0, 2)) == 0
-    tree = draw(PS.with_imports(tree, max_imports=14, extra_targets=EXTERNALS if ext else ()))
+    # besides modules (and externals): dotted names below scanned modules that are not modules themselves (a function or
+    # class imported with 'import pkg.mod.name', a compiled or excluded file): no import edge in the full architecture,
+    # hence none in the flattened one
+    phantoms = [m + "." + n for m in sorted(PS.tree_modules(tree)) for n in ("Thing", "native")][:12]
+    tree = draw(PS.with_imports(tree, max_imports=14, extra_targets=(EXTERNALS if ext else []) + phantoms))
     dirs = [""] + tree["dirs"]
     tree["module_path"] = draw(st.sampled_from(dirs)) if draw(st.booleans()) else ""
     sub = PS.dotted(tree["root"], tree["module_path"])
@@ -122,7 +126,8 @@ FIXED = {
     "otherfiles": [],
     "imports": [["a/m.py", "proj.b.y.z"], ["a/x/n.py", "proj.b.m"], ["a/x/deep/k.py", "proj.a.m"], ["a/x/deep/k.py", "proj.ab.m"],
                 ["b/y/z.py", "proj.a.x.deep.k"], ["b/m.py", "proj.b.y.z"], ["main.py", "proj.a.x.n"], ["ab/m.py", "proj.a.x"],
-                ["a/x/n.py", "os.path"], ["b/y/z.py", "xml.etree.ElementTree"], ["a/x/n.py", "proj.a.x.deep.k"]],
+                ["a/x/n.py", "os.path"], ["b/y/z.py", "xml.etree.ElementTree"], ["a/x/n.py", "proj.a.x.deep.k"],
+                ["ab/m.py", "proj.b.y.z.Thing"], ["main.py", "proj.ab.native"], ["b/m.py", "proj.a.x.deep.gen_pb2"]],
 }
 
 
